@@ -121,9 +121,7 @@ package s2
 //@   assumed "clipped-edge test in uv space (floating point): value not decided"
 //@   requires p != nil && it != nil
 
-//@ func (p *Polygon) iteratorContainsPoint(it *ShapeIndexIterator, point Point) bool
-//@   assumed "index path of polygon containment (parity structure: property C04; through the Shape interface, not decided)"
-//@   requires p != nil && it != nil
+// Polygon.iteratorContainsPoint: contract in vc_contains_verif.go (C04)
 
 // A cell can only be reported as contained when it lies inside a single index cell (relation Indexed): a cell the index
 // subdivides has edges through it. An interior covering made of such cells would stick out of the polygon.
